@@ -188,7 +188,9 @@ Print Assumptions c01_grpc_every_code.
 (* HTTP through the chain the engine assembles (BreakerHandler outside RecoverHandler): the mark is a success exactly
    when the status the client gets is below 500; a handler that panics on every request is a failure every time *)
 Theorem c01_engine_marks :
-  (forall cl c, h_mark cl c = h_benign cl c) /\ (forall cl c, (4 <= cl)%nat -> h_mark cl c = false).
+  (forall cl c, h_mark cl c = h_benign cl c) /\ (forall cl c, (4 <= cl <= 9)%nat -> h_mark cl c = false) /\
+  (* a client that disconnects mid-flight is benign for the route's breaker: 499 from the timeout handler, or the route's own answer *)
+  (forall c, h_mark 10 c = true /\ h_mark 11 c = true).
 Proof. exact engine_marks. Qed.
 Print Assumptions c01_engine_marks.
 
@@ -197,6 +199,17 @@ Print Assumptions c01_engine_marks.
 Theorem c01_http_client_marks : forall st, pred 10 st = benign 10 st /\ pred 10 1000 = false /\ pred 10 429 = true.
 Proof. intro st. repeat split. Qed.
 Print Assumptions c01_http_client_marks.
+
+(* rejection under concurrency: accept is a function of the window and of the caller's OWN coin; whoever draws a coin below
+   a positive ratio is rejected, whatever other callers are doing (model: every Begin / Allow event carries its own coin m;
+   c01_reject_only_on_excess gives the converse).  With coin 0 and a positive excess nobody is let in. *)
+Theorem c01_every_caller_draws : forall coin_lt w now,
+  (forall n2 d, 0 < n2 -> coin_lt 0 n2 d = true) ->
+  0 < excess2 (fst (history w now)) (snd (history w now)) ->
+  forall k id, (snd (bstep coin_lt (w, now) (Allow id 0)), snd (bstep coin_lt (w, now) (Begin id k 0))) =
+               (OAllowRejected, ORejected (if has_fallback k then RFallback else RUnavailable)).
+Proof. exact every_caller_draws. Qed.
+Print Assumptions c01_every_caller_draws.
 
 (* ---------------- non-vacuity ---------------- *)
 Example c01_rejection_happens :
